@@ -275,7 +275,50 @@ func (e *Expression) evaluate(res fhir.Resource, options ...fhirpath.EvaluateOpt
 	}
 
 	result, err := e.expression.Evaluate(config.Context, collection)
+	if err == nil && !ownElements(res, result) {
+		// An element reached through DomainResource.contained is a decoded copy of
+		// the packed resource: patching it would report success and change nothing.
+		return nil, nil, fmt.Errorf("%w: the path selects an element inside a contained resource", ErrNotPatchable)
+	}
 	return config.Context, result, err
+}
+
+// ownElements reports whether every element of the collection is a node of the
+// resource itself, as opposed to a copy decoded from a packed contained resource.
+func ownElements(res fhir.Resource, collection system.Collection) bool {
+	root := res.ProtoReflect()
+	contained := root.Descriptor().Fields().ByName("contained")
+	if contained == nil || !contained.IsList() || root.Get(contained).List().Len() == 0 {
+		return true // nothing is packed: every element the path can reach belongs to the resource
+	}
+	wanted := map[protoreflect.Message]bool{}
+	for _, item := range collection {
+		if msg, ok := item.(proto.Message); ok && msg != nil {
+			wanted[msg.ProtoReflect()] = true
+		}
+	}
+	var walk func(m protoreflect.Message)
+	walk = func(m protoreflect.Message) {
+		delete(wanted, m)
+		m.Range(func(fd protoreflect.FieldDescriptor, v protoreflect.Value) bool {
+			if len(wanted) == 0 {
+				return false
+			}
+			if fd.Message() == nil || fd.IsMap() {
+				return true
+			}
+			if fd.IsList() {
+				for i := 0; i < v.List().Len(); i++ {
+					walk(v.List().Get(i).Message())
+				}
+			} else {
+				walk(v.Message())
+			}
+			return true
+		})
+	}
+	walk(root)
+	return len(wanted) == 0
 }
 
 func (e *Expression) isSingletonOneof(msg proto.Message) bool {
